@@ -346,6 +346,25 @@ impl<'a> World<'a> {
                     None => self.res.hit("harness.view_failed"),
                 }
             }
+            // C08: a replica that has not replicated the default branch of a merging delegate must not count
+            // that delegate's merge (same changes, one reference less)
+            if !is_issue {
+                if let Ok(Some(obj)) = radicle::cob::get::<patch::Patch, _>(&repos[0], &patch::TYPENAME, &id) {
+                    let mergers: Vec<radicle::node::NodeId> = obj.object.merges().map(|(a, _)| *a).collect();
+                    for m in mergers.into_iter().take(2) {
+                        let missing = format!("refs/namespaces/{m}/refs/heads/master");
+                        let all: Vec<Oid> = all_tips.iter().copied().collect();
+                        if let Some(v) = self.view_without(&repos[0], &tn, &id, &all, Some(&missing)) {
+                            if let Ok(Some(o2)) = radicle::cob::get::<patch::Patch, _>(&v, &patch::TYPENAME, &id) {
+                                self.res.hit("probe.c08.evaluated_without_a_merging_delegates_branch");
+                                if o2.object.merges().any(|(a, _)| *a == m) {
+                                    self.res.violate(&own, "C08", "C08/merge-counted-without-default-branch", format!("{}: on a replica without the default branch of {} its merge is still recorded", self.oname(&id), self.who_key(&m)));
+                                }
+                            }
+                        }
+                    }
+                }
+            }
             let tips_v: Vec<Oid> = tips.iter().copied().collect();
             match self.view(&repos[0], &tn, &id, &tips_v) {
                 Some(view) => {
@@ -376,6 +395,11 @@ impl<'a> World<'a> {
     /// A repository with the same objects (alternates) and the same refs, except that the refs of
     /// object `id` point exactly at `tips` (spread over as many namespaces as needed).
     fn view(&mut self, src: &Repository, tn: &TypeName, id: &ObjectId, tips: &[Oid]) -> Option<Repository> {
+        self.view_without(src, tn, id, tips, None)
+    }
+
+    /// As `view`, and without the reference `without` (a replica that has not replicated it).
+    fn view_without(&mut self, src: &Repository, tn: &TypeName, id: &ObjectId, tips: &[Oid], without: Option<&str>) -> Option<Repository> {
         let n = self.res.counters.get("probe.c06.views").copied().unwrap_or(0);
         self.res.hit("probe.c06.views");
         let path = self.dir.join(format!("view-{n}"));
@@ -390,7 +414,7 @@ impl<'a> World<'a> {
         let skip = format!("/refs/cobs/{tn}/{id}");
         for r in src.backend.references().ok()?.flatten() {
             let Some(name) = r.name() else { continue };
-            if name.ends_with(&skip) || name == "HEAD" {
+            if name.ends_with(&skip) || name == "HEAD" || Some(name) == without {
                 continue;
             }
             if let Some(sym) = r.symbolic_target() {
